@@ -31,7 +31,14 @@ def _ustr8(s: str) -> bytes:        # 8-bit length unicode string (sheet names)
 _ERR = {"#NULL!": 0x00, "#DIV/0!": 0x07, "#VALUE!": 0x0F, "#REF!": 0x17, "#NAME?": 0x1D, "#NUM!": 0x24, "#N/A": 0x2A}
 
 
-def _sheet_stream(rows) -> bytes:
+def _serial(iso: str, datemode: int) -> float:
+    import datetime
+    dt = datetime.datetime.fromisoformat(iso)
+    d = dt - datetime.datetime(1899, 12, 30)
+    return d.days + d.seconds / 86400.0 - (1462 if datemode else 0)
+
+
+def _sheet_stream(rows, datemode=0) -> bytes:
     out = [_rec(0x0809, struct.pack("<HHHHII", 0x0600, 0x0010, 0x0DBB, 0x07CC, 0, 6))]        # BOF worksheet
     nrows = len(rows)
     ncols = max((len(r) for r in rows), default=0)
@@ -52,6 +59,11 @@ def _sheet_stream(rows) -> bytes:
                 out.append(_rec(0x0205, head + struct.pack("<BB", int(cell[1]), 0)))            # BOOLERR (boolean)
             elif k == "e":
                 out.append(_rec(0x0205, head + struct.pack("<BB", _ERR[cell[1]], 1)))           # BOOLERR (error)
+            elif k in ("d", "date", "t"):      # NUMBER with a date / date-time / time cell format (XF 2 / 1 / 3)
+                xf = {"d": 1, "date": 2, "t": 3}[k]
+                v = (_serial(cell[1], datemode) if k == "d" else _serial(cell[1] + "T00:00:00", datemode) if k == "date"
+                     else sum(int(x) * m for x, m in zip(cell[1].split(":"), (3600, 60, 1))) / 86400.0)
+                out.append(_rec(0x0203, struct.pack("<HHH", r, c, xf) + struct.pack("<d", v)))
             else:
                 raise ValueError(k)
     out.append(_rec(0x000A))                                                                     # EOF
@@ -60,12 +72,16 @@ def _sheet_stream(rows) -> bytes:
 
 def write_xls(book: dict) -> bytes:
     from ..c08_cfb import write_cfb
-    sheets = [_sheet_stream(sh["rows"]) for sh in book["sheets"]]
+    datemode = int(book.get("datemode", 0))        # 0: 1900 date system, 1: 1904 date system (old Mac workbooks)
+    sheets = [_sheet_stream(sh["rows"], datemode) for sh in book["sheets"]]
     glob_head = [_rec(0x0809, struct.pack("<HHHHII", 0x0600, 0x0005, 0x0DBB, 0x07CC, 0, 6)),    # BOF globals
                  _rec(0x0042, struct.pack("<H", 1200)),                                          # CODEPAGE utf-16
-                 _rec(0x0022, struct.pack("<H", 0)),                                             # DATEMODE 1900
+                 _rec(0x0022, struct.pack("<H", datemode)),                                      # DATEMODE
                  _rec(0x0031, struct.pack("<HHHHHBBBB", 200, 0, 0x7FFF, 400, 0, 0, 0, 0, 0) + _ustr8("Arial")),  # FONT
-                 _rec(0x00E0, struct.pack("<HHHBBBBIIH", 0, 0, 0x0001, 0x20, 0, 0, 0, 0, 0, 0x20C0))]            # XF
+                 _rec(0x00E0, struct.pack("<HHHBBBBIIH", 0, 0, 0x0001, 0x20, 0, 0, 0, 0, 0, 0x20C0)),            # XF 0 General
+                 _rec(0x00E0, struct.pack("<HHHBBBBIIH", 0, 22, 0x0001, 0x20, 0, 0, 0, 0, 0, 0x20C0)),           # XF 1 m/d/yy h:mm
+                 _rec(0x00E0, struct.pack("<HHHBBBBIIH", 0, 14, 0x0001, 0x20, 0, 0, 0, 0, 0, 0x20C0)),           # XF 2 m/d/yy
+                 _rec(0x00E0, struct.pack("<HHHBBBBIIH", 0, 21, 0x0001, 0x20, 0, 0, 0, 0, 0, 0x20C0))]           # XF 3 h:mm:ss
     bs_len = sum(4 + 6 + len(_ustr8(sh["name"])) for sh in book["sheets"])
     eof = _rec(0x000A)
     base = sum(len(x) for x in glob_head) + bs_len + len(eof)
